@@ -205,8 +205,20 @@ INSTANCES = [
       NT("SaturatingMul", "saturating_mul", "Self"), NT("SaturatingSub", "saturating_sub", "Self"),
       NT("WrappingAdd", "wrapping_add", "Self"), NT("WrappingMul", "wrapping_mul", "Self"), NT("WrappingSub", "wrapping_sub", "Self"),
       NT("OverflowingAdd", "overflowing_add", "(Self, bool)"), NT("OverflowingSub", "overflowing_sub", "(Self, bool)")], {}),
+] + [
+    ("src/int/ops.rs", mac, "src/int/ops.rs", "UI",
+     [(inv(tr, m, tys), dict({"$Struct": "$Struct", "$tr": tr, "$method": m, "$rhs": ty}, **({"$err": "\"\""} if mac == "try_shift_impl" else {})),
+       {"%s<%s> for $Struct<N>::%s" % (tr, ty, m): "%s_%s_%s" % (tr, ty, m)})
+      for tr, m in (("Shl", "shl"), ("Shr", "shr")) for tys in tyss for ty in tys], {})
+    for mac, tyss, inv in (
+        ("shift_impl", [["u8", "u16"]],
+         lambda tr, m, tys: "crate::int::ops::shift_impl!($Struct, %s, %s, %sAssign, %s_assign, %s)" % (tr, m, tr, m, ", ".join(tys))),
+        ("try_shift_impl", [["i8", "i16", "i32", "isize", "i64", "i128"], ["usize", "u64", "u128"]],
+         lambda tr, m, tys: "crate::int::ops::try_shift_impl!($Struct, $BUint, $BInt; %s, %s, %sAssign, %s_assign, \"attempt to shift %s with overflow\", %s)" % (
+             tr, m, tr, m, {"shl": "left", "shr": "right"}[m], ", ".join(tys))))
 ]
-USES += [("src/bint/mod.rs", "ilog!(ilog2);"), ("src/bint/checked.rs", "checked_ilog!(checked_ilog2);"),
+USES += [("src/int/ops.rs", "crate::int::ops::all_shift_impls!($Struct, $BUint, $BInt);"),
+         ("src/bint/mod.rs", "ilog!(ilog2);"), ("src/bint/checked.rs", "checked_ilog!(checked_ilog2);"),
          ("src/buint/numtraits.rs", "crate::int::numtraits::impls!($BUint, $BUint, $BInt, $Digit);"),
          ("src/bint/numtraits.rs", "crate::int::numtraits::impls!($BInt, $BUint, $BInt, $Digit);"),
          ("src/buint/numtraits.rs", "crate::macro_impl!(numtraits);"), ("src/bint/numtraits.rs", "crate::macro_impl!(numtraits);")]
@@ -216,6 +228,7 @@ USES += [("src/bint/mod.rs", "ilog!(ilog2);"), ("src/bint/checked.rs", "checked_
 # None is the unknown type of `None` / a diverging expression
 
 
+PRIM_INTS = ("u8", "u16", "u64", "u128", "usize", "i8", "i16", "i32", "i64", "i128", "isize")
 INTS = ("Z", "SD", "D", "lit")     # ExpType / signed digit / digit / integer literal (all Coq Z)
 
 
@@ -252,6 +265,8 @@ def tshow(t):
         return "(unwrap_unchecked of option %s)" % tshow(t[1])
     if isinstance(t, tuple):
         return "option (%s)" % tshow(t[1]) if t[0] == "opt" else "(" + " * ".join(tshow(x) for x in t[1]) + ")"
+    if isinstance(t, str) and t.startswith("P:"):
+        return "Z"
     return {"U": "list Z", "I": "list Z", "bool": "bool", "Z": "Z", "ord": "comparison", "SD": "Z", "D": "Z", "lit": "Z"}[t]
 
 
@@ -604,7 +619,7 @@ def tokenize(s):
 
 
 IDENT = re.compile(r"^\$?[A-Za-z_]\w*$")
-KEYWORDS = {"if", "else", "match", "let", "return", "unsafe", "true", "false", "mut", "while", "loop", "for", "as", "in", "ref", "move"}
+KEYWORDS = {"if", "else", "match", "let", "return", "unsafe", "true", "false", "mut", "while", "loop", "for", "as", "in", "ref", "move", "use"}
 
 
 class P:
@@ -665,6 +680,8 @@ class P:
             return "Self"
         if name in ("ExpType", "u32"):
             return "Z"
+        if name in PRIM_INTS:
+            return "P:" + name          # a primitive integer other than ExpType = u32 (shift amounts): its value as a Coq Z
         if name == "bool":
             return "bool"
         if name == "Ordering":
@@ -703,6 +720,30 @@ class P:
                     self.eat(")")
                 self.eat(";")
                 stmts.append(("assert", c))
+            elif v == "use":
+                while self.eat() != ";":
+                    pass
+            elif v == "#cfg(debug_assertions)" and self.peek(1) == "let":
+                # #[cfg(debug_assertions)] let x = e1;  #[cfg(not(debug_assertions))] let x = e2;
+                def one_let():
+                    self.eat("let")
+                    x = self.ident()
+                    if self.peek() == ":":
+                        self.eat(":")
+                        self.type_()
+                    self.eat("=")
+                    e_ = self.expr()
+                    self.eat(";")
+                    return x, e_
+                self.eat()
+                x1, e1 = one_let()
+                if self.peek() != "#cfg(not(debug_assertions))" or self.peek(1) != "let":
+                    die("expected #[cfg(not(debug_assertions))] let after the debug-assertions let")
+                self.eat()
+                x2, e2 = one_let()
+                if x1 != x2:
+                    die("the two cfg(debug_assertions) lets bind different names")
+                stmts.append(("let", x1, ("dbgsel", e1, e2), set()))
             elif v is not None and v.startswith("#"):
                 if v == "#allow(clippy::comparison_chain)":
                     self.eat()
@@ -889,7 +930,7 @@ class P:
                 self.eat("::")
                 segs.append(self.eat())
             if segs[-1] not in ("ExpType", "u32"):
-                die("`as %s` cast is outside the supported subset (only `as ExpType` on an ExpType value)" % "::".join(segs))
+                die("`as %s` cast is outside the supported subset (only `as ExpType`)" % "::".join(segs))
             e = ("as_exptype", e)
         return e
 
@@ -1043,6 +1084,12 @@ class P:
             self.eat(",")
             self.skip_to_close()          # the panic message does not matter to the model
             return ("expect", e)
+        if name == "result_expect!":
+            self.eat("(")
+            e = self.expr()
+            self.eat(",")
+            self.skip_to_close()
+            return ("expect", e)            # Results are translated as options (Err = None)
         if name in ("div_zero!", "rem_zero!"):
             self.eat("(")
             self.eat(")")
@@ -1177,9 +1224,12 @@ class Gen:
             return [], str(e[1]), "lit", False
         if k == "as_exptype":
             def bc(vs):
-                if vs[0][1] not in ("Z", "lit"):
-                    die("`as ExpType` on a value of type %s (only the identity cast ExpType -> ExpType is supported)" % tshow(vs[0][1]))
-                return vs[0][0], "Z", False
+                t0 = vs[0][1]
+                if t0 in ("Z", "lit", "P:u8", "P:u16"):
+                    return vs[0][0], "Z", False                   # ExpType -> ExpType, or a widening cast: the value is unchanged
+                if isinstance(t0, str) and t0.startswith("P:"):
+                    return "(Z.modulo %s (2 ^ 32))" % vs[0][0], "Z", False        # truncating / sign-reinterpreting `as u32`
+                die("`as ExpType` on a value of type %s" % tshow(t0))
             return self.seq([e[1]], env, bc)
         if k == "digit0":
             def bd(vs):
@@ -1291,6 +1341,14 @@ class Gen:
                             die("tuple_to_option on %s" % tshow(ty))
                         return "(Core.tuple_to_option %s)" % t, ("opt", ty[1][0]), False
                     return self.seq(args, env, bt)
+                if segs == ["ExpType", "try_from"] and len(args) == 1:
+                    # u32::try_from(x) for a primitive integer x: Ok exactly when 0 <= x <= u32::MAX (a Result, translated as an option)
+                    def btf(vs):
+                        if not (isinstance(vs[0][1], str) and vs[0][1].startswith("P:")):
+                            die("ExpType::try_from on %s" % tshow(vs[0][1]))
+                        v_ = vs[0][0]
+                        return "(if andb (Z.leb 0 %s) (Z.leb %s u32_max) then Some %s else None)" % (v_, v_, v_), ("opt", "Z"), False
+                    return self.seq(args, env, btf)
                 if name == "Some" and len(args) == 1:
                     return self.seq(args, env, lambda vs: ("(Some %s)" % vs[0][0], ("opt", vs[0][1]), False))
                 die("call of unknown function %s" % "::".join(segs))
@@ -1312,6 +1370,10 @@ class Gen:
             return self.tr_stmts(e[1], e[2], dict(env))
         if k in ("return", "dbgif"):
             return self.tr_tail(e, env)
+        if k == "dbgsel":
+            self.uses_dbg = True
+            (ta, tb), ty, eff = self.branches([self.trc(e[1], env), self.trc(e[2], env)])
+            return [], "(if dbg then %s else %s)" % (ta, tb), ty, eff
         die("cannot translate %r" % (e,))
 
     def branches(self, parts):
@@ -1690,9 +1752,11 @@ def main():
         body = macro_arm_body(macro_region(strip_comments(open(os.path.join(REPO, dpath)).read()), mname, dpath), mname, dpath)
         isrc = strip_comments(open(os.path.join(REPO, ipath)).read())
         found = []
-        for m in re.finditer(r"(?<![\w$:])%s!\s*\(" % re.escape(mname), isrc):      # not `doc::..::name!(..)`
+        for m in re.finditer(r"(?<![\w$:])((?:\w+::)*)%s!\s*\(" % re.escape(mname), isrc):
+            if m.group(1).startswith("doc::"):                # the documentation macro of the same name
+                continue
             found.append(re.sub(r"\s+", "", isrc[m.start():balanced(isrc, m.end() - 1, "(", ")")]))
-        listed = [re.sub(r"\s+", "", x[0]) for x in insts] + [re.sub(r"\s+", "", x) for x in skipped]
+        listed = sorted(set([re.sub(r"\s+", "", x[0]) for x in insts] + [re.sub(r"\s+", "", x) for x in skipped]))
         for f_ in found:
             if f_ not in listed:
                 CUR[0] = "%s %s" % (ipath, f_)
